@@ -38,6 +38,11 @@ type c15Tmpl struct {
 	PreEmit    int  // stateful: events emitted (by emitter 0) before anything else starts
 	Slow       bool // the subscriber sleeps 1.5 s (virtual) before reading: slow-consumer path
 	EmCloseRace bool // emitter 0 is closed by a third thread while the subscriber subscribes; a fresh emitter then emits
+	// PlainSecond: with Stateful, only emitter 0 asks for Stateful; the others are plain emitters of the same type (a type
+	// is stateful as soon as one of its emitters said so)
+	PlainSecond bool
+	// OtherWildcard: another wildcard subscription exists from the start and is closed by its own thread during the race
+	OtherWildcard bool
 }
 
 type c15Emit struct {
@@ -76,7 +81,7 @@ func c15Body(tp c15Tmpl) func(x *vs.Exec) {
 		var ems []event.Emitter
 		mkEmitter := func(i int) event.Emitter {
 			var opts []event.EmitterOpt
-			if tp.Stateful {
+			if tp.Stateful && !(tp.PlainSecond && i > 0) {
 				opts = append(opts, Stateful)
 			}
 			var em event.Emitter
@@ -116,6 +121,13 @@ func c15Body(tp c15Tmpl) func(x *vs.Exec) {
 			remaining = 1
 		}
 		var sub event.Subscription
+		var other event.Subscription
+		if tp.OtherWildcard {
+			var err error
+			if other, err = bus.Subscribe(event.WildcardSubscription); err != nil {
+				panic(err)
+			}
+		}
 
 		// phase 0 (stateful): earlier events, emitted under the scheduler but before the race starts
 		if tp.PreEmit > 0 {
@@ -178,6 +190,11 @@ func c15Body(tp c15Tmpl) func(x *vs.Exec) {
 				run.reads = append(run.reads, c15Read{e, n, vs.Stamp()})
 			}
 		})
+		if other != nil {
+			s.Go("other-wildcard-closes", func() {
+				other.Close()
+			})
+		}
 		if tp.EmCloseRace {
 			s.Go("emitter-closer", func() {
 				ems[0].Close()
@@ -386,6 +403,12 @@ func c15Oracle(x *vs.Exec, tp c15Tmpl, r *c15Run) {
 			return
 		}
 		first := r.reads[0]
+		// the retained event is sent under the node lock taken by Subscribe, so nothing emitted later can overtake it:
+		// the first event comes from an Emit that had at least started when Subscribe returned
+		if e, ok := emitOf[key{first.e, first.n}]; ok && e.start > r.subDone {
+			x.Fail("retained-event-missing", "the first event received, %d.%d, was emitted after Subscribe had returned although %d events had been emitted before: the most recent earlier event was not delivered first (reads %v)", first.e, first.n, tp.PreEmit, r.reads)
+			return
+		}
 		// candidates: latest Emit that returned before Subscribe returned ... latest Emit that started before it
 		lo, hi := 0, 0
 		for _, e := range r.emits {
@@ -432,6 +455,9 @@ func c15Templates(thorough bool) []c15Tmpl {
 			c15Tmpl{Name: fmt.Sprintf("emitter-close-vs-subscribe buf=%d", buf), Buf: buf, Emitters: 1, PerEmitter: 1, ReadFirst: -1, EmCloseRace: true},
 		)
 	}
+	out = append(out,
+		c15Tmpl{Name: "stateful buf=1 late-subscriber, the type also has a plain emitter", Buf: 1, Stateful: true, PlainSecond: true, Emitters: 2, PerEmitter: 1, PreEmit: 2, ReadFirst: -1, EmitAfter: true},
+		c15Tmpl{Name: "wildcard buf=1 subscribe while the only other wildcard subscription closes, emit2 read-all", Buf: 1, Wildcard: true, OtherWildcard: true, Emitters: 1, PerEmitter: 2, ReadFirst: -1, EmitAfter: true})
 	out = append(out, c15Tmpl{Name: "typed buf=1 slow-consumer", Buf: 1, Emitters: 1, PerEmitter: 3, ReadFirst: -1, EmitAfter: true, Slow: true})
 	if thorough {
 		for _, buf := range []int{0, 1, 2} {
